@@ -199,8 +199,9 @@ class ImplicitComponent(Component):
             with Recording(self.pathname + '._solve_nonlinear', self.iter_count, self):
                 self._nonlinear_solver._solve_with_cache_check()
         elif self._has_solve_nl:
-            with self._unscaled_context(outputs=[self._outputs]):
-                with Recording(self.pathname + '._solve_nonlinear', self.iter_count, self):
+            # the iteration is recorded with the model in a scaled state, as for all other systems
+            with Recording(self.pathname + '._solve_nonlinear', self.iter_count, self):
+                with self._unscaled_context(outputs=[self._outputs]):
                     with self._call_user_function('solve_nonlinear'):
                         if self._run_root_only():
                             if self.comm.rank == 0:
